@@ -815,6 +815,15 @@ htp_status_t htp_connp_RES_HEADERS(htp_connp_t *connp) {
 
     for (;;) {
         if (connp->out_status == HTP_STREAM_CLOSED) {
+            // Parse previous header, if any.
+            if (connp->out_header != NULL) {
+                if (connp->cfg->process_response_header(connp, bstr_ptr(connp->out_header),
+                                                        bstr_len(connp->out_header)) != HTP_OK)
+                    return HTP_ERROR;
+                bstr_free(connp->out_header);
+                connp->out_header = NULL;
+            }
+
             // Finalize sending raw trailer data.
             htp_status_t rc = htp_connp_res_receiver_finalize_clear(connp);
             if (rc != HTP_OK) return rc;
